@@ -153,7 +153,8 @@ def VolumeMatrix(
     list_box, list_points = convert_configuration(snapshots)
     logger.info(f"Calculate the Voronoi volume matrix for configuration No.{nconfig}")
     box = list_box[nconfig]
-    points = list_points[nconfig]
+    # the points may alias snapshot.positions (no shift / padding applied): perturb a copy
+    points = np.array(list_points[nconfig])
     num_particles = points.shape[0]
     matrixA = np.zeros((num_particles, num_particles * ndim))
 
